@@ -23,12 +23,14 @@ of the correct and of a wrong digest, correct digest + 1 byte; signature valid o
 with a non-minimal BER length (A0 81 nn / A0 82 00 nn) signed over the DER re-encoding (judged: no certificate) and over the stored
 bytes (observed only); declared digest algorithm different from the one signed with; a second,
 corrupted signature block next to a valid one.
-History: every judged case is an explicit history in ONE process - the genuine artefact goes through get_certificate_der
+History: every judged case is an explicit history in ONE process - first a DECOY (a different validly signed APK with the same
+entry and signer file names, signed by the other test key of that type), then the genuine artefact goes through get_certificate_der
 first (same path), then the substitution values of one fault site in order (structural variants: variant, the genuine
 artefacts of that key/digest with and without signed attributes, the same variant again); replay() re-runs exactly that history, so state carried between calls (e.g. a cache of verified signatures)
 is part of what is judged.
-Oracle: valid artefact -> exactly the signer's DER certificate (get_certificate_der, get_certificates_v1,
-get_signature_names); any fault -> None or an exception, never a certificate (of anyone).  For two-SignerInfo files only
+Container order: the genuine artefact with its 4 zip entries in all 24 orders x central directory same / reversed.
+Oracle: valid artefact -> exactly the signer's DER certificate (get_certificate_der, get_certificate, get_certificates_v1,
+get_certificates, get_signature_names / get_signature_name / get_signatures / is_signed_v1 / is_signed agreeing); any fault -> None or an exception, never a certificate (of anyone).  For two-SignerInfo files only
 "never a certificate that does not verify" is judged (which SignerInfos are consulted per minSdk is documented behaviour,
 not part of the statement): the outcome is counted in the evidence.
 """
@@ -149,7 +151,30 @@ def build_art(cfg, p7=None, p7_builder=None):
 def zip_of(art, replace=None):
     from gen import apkgen as G
     replace = replace or {}
-    return G.make_zip([(n, replace.get(n, d), "deflated") for n, d in art.entries])
+    return G.make_zip([(n, replace.get(n, d), "deflated") for n, d in art.entries], cd_order=getattr(art, "cd_order", None))
+
+
+_decoys = {}
+
+
+def run_decoy(cfg):
+    """DECOY HISTORY: a validly signed but DIFFERENT APK with the same entry and signer file names (META-INF/CERT.SF, CERT.<ext>),
+    same key type / digest / attribute setting / minSdk, other payload content and signed by the OTHER test key of that type, is
+    opened and asked for its certificate first (result ignored).  Called at the top of every judged history, so also in replay()."""
+    from androguard.core import apk as A
+    from gen import apkgen as G
+    kind, alg, attrs, minsdk = cfg
+    if cfg not in _decoys:
+        ents = [(n, d if n == "AndroidManifest.xml" else b"decoy payload") for n, d in payload(minsdk)] + [("zz/extra.txt", b"decoy")]
+        other = OTHER[kind]
+        meta, _, _ = G.v1_files(ents, alg, lambda sf: G.pkcs7([G.signer_info(sf, other, alg, attrs)], [other], [alg]),
+                                ext=G.block_ext(kind))
+        _decoys[cfg] = (G.make_zip([(n, d, "deflated") for n, d in ents + meta]), meta[2][0])
+    try:
+        a = A.APK(_decoys[cfg][0], raw=True, skip_analysis=True)        # cheapest constructor: the result is ignored anyway
+        observe(a, _decoys[cfg][1])
+    except Exception:     # noqa
+        pass
 
 
 def fields(art):
@@ -253,7 +278,7 @@ def fast_apk(art):
     return a, store
 
 
-def full_obs(art, replace=None):
+def full_obs(art, replace=None, alt=True):
     """Full path: rebuilt zip -> APK -> get_certificate_der + get_certificates_v1 + get_signature_names"""
     from androguard.core import apk as A
     a = A.APK(zip_of(art, replace), raw=True)
@@ -264,6 +289,39 @@ def full_obs(art, replace=None):
         v1 = ("exc", type(e).__name__)
     try:
         names = list(a.get_signature_names())
+    except Exception as e:     # noqa
+        names = ("exc", type(e).__name__)
+    if not alt:                                  # priming runs of a history: result not judged, keep them cheap
+        return o, v1, names
+    # alternative entry points must tell the same story; a disagreement is folded into (v1, names) so that every caller's
+    # existing judgement sees it: an extra certificate makes a corrupted file "report a certificate", a missing one makes a valid
+    # file "not exactly the signer's certificate"
+    try:
+        c = a.get_certificate(art.p7_name)
+        c = None if c is None else c.dump()
+        if (c is not None or o[0] == "cert") and c != (o[1] if o[0] == "cert" else None) and isinstance(v1, list):
+            v1 = v1 + [c if c is not None else b"<get_certificate() returned None where get_certificate_der() gave a certificate>"]
+    except Exception:     # noqa
+        pass                                            # an exception reports no certificate
+    try:
+        allc = [x.dump() for x in a.get_certificates()]
+        if isinstance(v1, list):
+            uniq = [x for i, x in enumerate(v1) if x not in v1[:i]]
+            if allc != uniq:
+                v1 = v1 + [x for x in allc if x not in v1] + ([b"<get_certificates() lacks a certificate get_certificates_v1() lists>"]
+                                                              if any(x not in allc for x in v1) else [])
+    except Exception:     # noqa
+        pass
+    try:
+        if isinstance(names, list):
+            first = a.get_signature_name()
+            sigs = [bytes(x) for x in a.get_signatures()]
+            files = dict(art.entries)
+            files.update(replace or {})
+            ok = (first == (names[0] if names else None) and bool(a.is_signed_v1()) == bool(names) and bool(a.is_signed()) == bool(names)
+                  and sigs == [files[n] for n in names] and a.get_signature() == (sigs[0] if sigs else None))
+            if not ok:
+                names = ("alt-entry-points-disagree", first, len(sigs))
     except Exception as e:     # noqa
         names = ("exc", type(e).__name__)
     return o, v1, names
@@ -289,6 +347,7 @@ def judge_valid(art, a=None):
     out = []
     if a is None:
         a, _ = fast_apk(art)
+    run_decoy(art.cfg)
     o = observe(a, art.p7_name)
     if o != ("cert", art.signer_der):
         out.append((key, "%s: valid artefact: get_certificate_der -> %s, expected the signer's certificate"
@@ -319,15 +378,17 @@ def judge_mut(art, f, a, store, mut, path="fast"):
     return None, o[0] + (":" + o[1] if o[0] == "exc" else "")
 
 
-def site_history(art, f, a, store, field, off, alphabet, path="fast", upto=None):
+def site_history(art, f, a, store, field, off, alphabet, path="fast", upto=None, with_decoy=True):
     """One judged HISTORY in this process: the genuine artefact is pushed through get_certificate_der first (same path), then
     every substitution value of this fault site in alphabet order.  Yields (mut, violation | None, reaction class) per value and
     first ("genuine", reaction).  run_shard and replay() both go through here, so a defect that needs the genuine block to have been
     seen before (caches, memoisation) shows up identically in a fresh replay process.  upto: stop after this value (replay)."""
+    if with_decoy:
+        run_decoy(art.cfg)
     if path == "fast":
         g = observe(a, art.p7_name)
     else:
-        g = full_obs(art)[0]
+        g = full_obs(art, alt=False)[0]
     yield "genuine", None, g[0]
     orig = art.sf[off] if field == "sf" else art.p7[f[field][0] + off]
     for val in values(orig, alphabet):
@@ -397,6 +458,9 @@ def variants(kind, alg, attrs):
 MD_KINDS = {"empty": lambda c, w: b"", "correct-prefix-1": lambda c, w: c[:1], "correct-prefix-n-1": lambda c, w: c[:-1],
             "wrong-prefix-1": lambda c, w: w[:1], "wrong-prefix-n-1": lambda c, w: w[:-1], "correct-plus-1": lambda c, w: c + b"\x00"}
 STRUCT_MINSDK = [None, 23, 24]
+# container order: every permutation of the four zip entries (payload, MANIFEST.MF, CERT.SF, CERT.<ext>) x central directory same / reversed
+import itertools as _it
+ORDER_NAMES = ["entry-order:%s/%s" % ("".join(map(str, p)), cd) for p in _it.permutations(range(4)) for cd in ("cd-same", "cd-reversed")]
 
 
 def judge_struct(kind, alg, attrs, minsdk, name):
@@ -405,8 +469,9 @@ def judge_struct(kind, alg, attrs, minsdk, name):
     cfg = (kind, alg, attrs, minsdk)
     tag = "%s/%s/%s/minSdk=%s variant %s" % (kind, alg, "signed-attrs" if attrs else "no-attrs", minsdk, name)
     sdk = "" if not name.startswith("two-si") else (":minsdk>=24" if (minsdk or 0) >= 24 else ":minsdk<24")
-    key = "variant:%s%s:%s" % (name, sdk, kind)
+    key = "variant:%s%s:%s" % (name if not name.startswith("entry-order:") else "entry-order" + name[name.index("/"):], sdk, kind)
     out = []
+    run_decoy(cfg)
     if name == "second-block-corrupt":
         # a valid block (kind) + a second block of another key type whose signature is corrupted
         art = build_art(cfg)
@@ -430,8 +495,15 @@ def judge_struct(kind, alg, attrs, minsdk, name):
         if isinstance(v1, list) and art.signer_der not in v1:
             out.append((key + ":valid-block", "%s: get_certificates_v1 does not list the valid block's certificate" % tag))
         return out, "%s|%s" % (o1[0], o2[0])
-    builder, exp = variants(kind, alg, attrs)[name]
-    art = build_art(cfg, p7_builder=builder)
+    if name.startswith("entry-order:"):
+        # the genuine artefact with its zip entries in another order / the central directory reversed: exactly the signer's cert
+        art, exp = build_art(cfg), ("exact", kind)
+        perm, cd = name[len("entry-order:"):].split("/")
+        art.entries = [art.entries[int(c)] for c in perm]
+        art.cd_order = [3, 2, 1, 0] if cd == "cd-reversed" else None
+    else:
+        builder, exp = variants(kind, alg, attrs)[name]
+        art = build_art(cfg, p7_builder=builder)
     repl = None
     if name.endswith("/altered-sf"):
         b = bytearray(art.sf)
@@ -440,9 +512,12 @@ def judge_struct(kind, alg, attrs, minsdk, name):
     # history: the variant, then the genuine artefact of the same configuration, then the SAME variant bytes again; both
     # observations of the variant are judged (in a fresh replay process the first one is a cold start)
     o, v1, names = full_obs(art, repl)
-    g = full_obs(build_art(cfg))[0]
-    full_obs(build_art((kind, alg, not attrs, minsdk)))      # the sibling genuine artefact (other signed-attribute setting) too:
-    o2, v12, _ = full_obs(art, repl)                         # its signature is over the bare .SF resp. the attributes
+    if name.startswith("entry-order:"):                      # 1728 of them: judged once after the decoy, no second pass
+        g, (o2, v12) = ("cert", G.cert_der(kind)), (o, v1)
+    else:
+        g = full_obs(build_art(cfg), alt=False)[0]
+        full_obs(build_art((kind, alg, not attrs, minsdk)), alt=False)   # the sibling genuine artefact (other signed-attribute
+        o2, v12, _ = full_obs(art, repl)                                 # setting) too: its signature is over the bare .SF / the attributes
     if g != ("cert", G.cert_der(kind)):
         out.append(("valid:%s:%s" % ("signed-attrs" if attrs else "no-attrs", kind),
                     "%s: the genuine artefact verified between the two runs yields %s" % (tag, g[0])))
@@ -500,9 +575,15 @@ def space(ctx):
                                                 "signed-attrs": f["signed-attrs"][1], "sid": f["sid"][1]},
             "full_path_binding": "every fault site of every artefact x value ^01 through zipfile -> APK(raw)",
             "structural_variants_built": "11 per (key, digest) without signed attributes, 29 with (13 + 6 wrong-length messageDigest "
-                                         "kinds x {genuine, altered .SF} + 4 BER-length signedAttrs), x minSdk %r" % (STRUCT_MINSDK,),
+                                         "kinds x {genuine, altered .SF} + 4 BER-length signedAttrs), each + 48 entry-order variants, x minSdk %r" % (STRUCT_MINSDK,),
             "messageDigest_kinds": sorted(MD_KINDS),
             "structural_variants": sorted(variants("rsa", "sha256", True)) + ["second-block-corrupt"],
+            "entry_order_variants": "all 24 orders of the 4 zip entries x central directory same / reversed = %d per combination and minSdk"
+                                    % len(ORDER_NAMES),
+            "decoy_history": "a different, validly signed APK with the same entry / signer file names (other key of the same type) is "
+                             "opened and asked for its certificate at the top of every judged history",
+            "alternative_entry_points(full path)": ["get_certificate", "get_certificates", "get_certificates_v1", "get_signature_name",
+                                                    "get_signature", "get_signatures", "is_signed_v1", "is_signed"],
             "structural_minsdk": STRUCT_MINSDK, "cryptography_deterministic": {"rsa": True, "ec": "RFC 6979 if available", "dsa": False},
             "keys": G.KEY_NAMES}
 
@@ -512,7 +593,7 @@ def run_shard(ctx, shard):
     if shard[0] == "struct":
         _, kind, alg, attrs = shard
         for minsdk in STRUCT_MINSDK:
-            for name in list(variants(kind, alg, attrs)) + ["second-block-corrupt"]:
+            for name in list(variants(kind, alg, attrs)) + ["second-block-corrupt"] + ORDER_NAMES:
                 res, cls = judge_struct(kind, alg, attrs, minsdk, name)
                 acc.case(nontrivial=("struct", kind, alg, attrs, minsdk, name), outcome=("struct", name, cls))
                 acc.count("structural_variants")
@@ -541,7 +622,7 @@ def run_shard(ctx, shard):
     if shard[0] == "bind":
         for field, off in s:
             (_, _, g1), (mut, r1, c1) = list(site_history(art, f, a, store, field, off, ONE, "fast"))
-            (_, _, g2), (_, r2, c2) = list(site_history(art, f, a, store, field, off, ONE, "full"))
+            (_, _, g2), (_, r2, c2) = list(site_history(art, f, a, store, field, off, ONE, "full", with_decoy=False))
             if g1 != "cert" or g2 != "cert":
                 acc.count("genuine_rejected_inside_history")
             acc.case(outcome=("bind", field, c2))
@@ -615,7 +696,7 @@ def finalize(ctx, acc):
             acc.harness_error("no .SF site was enumerated with the 255-value alphabet")
         if ctx.thorough and (acc.extra.get("sites_sf_x8") or acc.extra.get("sites_signature_x8")):
             acc.harness_error("thorough tier must use the 255-value alphabet on every .SF and signature byte")
-    nstruct = sum((29 if at else 11) for k, a, at, ms in configs() if ms is None) * len(STRUCT_MINSDK)
+    nstruct = sum((29 + len(ORDER_NAMES) if at else 11 + len(ORDER_NAMES)) for k, a, at, ms in configs() if ms is None) * len(STRUCT_MINSDK)
     if acc.extra.get("structural_variants") != nstruct:
         acc.harness_error("structural variants built: %r, stated: %d" % (acc.extra.get("structural_variants"), nstruct))
     for ms in STRUCT_MINSDK:
